@@ -52,6 +52,20 @@ PROPS["C06"] = dict(
     note="Trusted: file-system primitives, SQLite statement semantics, FileHash.from_json (bounded in C13), solvers, pyvc.",
 )
 
+PROPS["C16"] = dict(
+    modules=["contracts.C16_rpc", "contracts.C13_lemmas"],
+    decided=["framing: the k-th message of a concatenation of encodings is returned as (id_k, body_k) for every "
+             "fragmentation of the byte stream by recv", "pairing by call id on client and server", "only "
+             "@allow_rpc methods are callable", "failure mapping usage/non-usage"],
+    undecided=["'exactly one reply' and 'never blocks' under arbitrary asyncio task interleavings and disconnects",
+               "payload pickling (external)"],
+    assumptions=["socket.recv / StreamReader.readexactly return bytes of the stream in order"],
+    level="Contracts on the real framing functions (encode, decode, readexactly loop with an invariant over the ghost "
+          "byte stream) prove that a message is read back exactly for every fragmentation; pairing, exposure and "
+          "failure mapping are proved per function on map/guard contracts.",
+    note="Trusted: socket/asyncio stream primitives, pickle, inspect.signature.bind, asyncio scheduling, solvers, pyvc.",
+)
+
 NOT_BUILT = {}
 
 _loaded = False
